@@ -385,7 +385,10 @@ def written_chains(st):
             out |= LAMBDA_WRITES[0]          # a call may run a lambda of this function (handed over as a callback)
             if isinstance(n.func, ast.Attribute):
                 c = chain(n.func.value)
-                if c is not None:
+                if c == ('self',) and METHOD_WRITES[0].get(n.func.attr) is not None:
+                    # a method of this class whose effect on self is known attribute by attribute
+                    out |= {('self', a_) for a_ in METHOD_WRITES[0][n.func.attr]}
+                elif c is not None:
                     out.add(c)
                 elif isinstance(n.func.value, (ast.BoolOp, ast.IfExp)):
                     for br in (n.func.value.values if isinstance(n.func.value, ast.BoolOp) else [n.func.value.body, n.func.value.orelse]):
@@ -517,6 +520,12 @@ def slot_interferes(st, r):
     if r[0] in MUTABLE_GLOBALS[0] and any(isinstance(n, ast.Call) and not is_pure(n) for n in ast.walk(st)):
         return True
     stores = _store_chains(st)
+    if LAMBDA_WRITES[0] and any(isinstance(n, ast.Call) and not is_pure(n) for n in ast.walk(st)) and any(_prefix(c, r) for c in _cut_written(LAMBDA_WRITES[0])):
+        return True         # a lambda / nested function that a call may run binds the slot (or something on the way) anew
+    for n in ast.walk(st):
+        if isinstance(n, ast.Call) and isinstance(n.func, ast.Attribute) and chain(n.func.value) == ('self',) and METHOD_WRITES[0].get(n.func.attr) is not None:
+            if any(_prefix(('self', a_), r) for a_ in METHOD_WRITES[0][n.func.attr]):
+                return True     # the method binds that attribute anew (or changes the object it holds: not told apart)
     plain = set(_REBOUND_ONLY[0])
     cut = _cut_written(stores)
     special = cut - stores              # stores through __class__ / __dict__ / a property setter: the object as a whole
@@ -2286,6 +2295,8 @@ def _identity_free_uses(func, uses):
             continue        # `x is None` does not tell equal objects apart
         if isinstance(p, (ast.BinOp, ast.UnaryOp, ast.FormattedValue)):
             continue
+        if isinstance(p, ast.AugAssign) and p.value is u:
+            continue        # x += v takes what v holds, not v itself
         if isinstance(p, ast.Subscript) and p.value is u and isinstance(p.ctx, ast.Load):
             continue
         if isinstance(p, (ast.For, ast.comprehension)) and p.iter is u:
@@ -3114,6 +3125,7 @@ def _atoms(cond, then, other, budget):
 
 
 _RAISING_ATOMS = set()
+_OUTER_BOUND = [frozenset()]
 
 
 def _mk_cond_leaf(cond, then, other):
@@ -3563,7 +3575,17 @@ def _cstmt(st, budget):
     if isinstance(st, (ast.Import, ast.ImportFrom)):
         return ('import', ast.unparse(st))
     if isinstance(st, (ast.FunctionDef, ast.AsyncFunctionDef)):
-        return ('def', type(st).__name__, ast.dump(st))         # nested functions are compared as written
+        # nested functions are compared as written - unless they are closed (mention no name the enclosing function binds):
+        # then their own canonical text serves
+        if isinstance(st, ast.FunctionDef) and not (_helper_free_names(st) & _OUTER_BOUND[0]) and not st.decorator_list:
+            ob = _OUTER_BOUND[0]
+            try:
+                inner = canonical(st)
+            finally:
+                _OUTER_BOUND[0] = ob
+            if inner is not None:
+                return ('def', st.name, inner)
+        return ('def', type(st).__name__, ast.dump(st))
     if isinstance(st, ast.ClassDef):
         return ('def', ast.unparse(st))
     raise NotCanonicalisable(type(st).__name__)
@@ -3622,6 +3644,108 @@ def sized_chains(scope_nodes):
             for p_ in _params(f):
                 bad.add((p_,))
     return ok - bad
+
+
+def class_method_writes(cls_nodes, other_method_names=()):
+    """name -> frozenset of the attributes of self that a call `self.name(..)` may change (bind anew, or change the object they
+    hold), for the methods defined in the given class bodies; None for a method whose effect on self is not bounded that way
+    (it hands self to something, uses setattr / __dict__, calls a method that is unknown or that another class also defines).
+    The receiver of `self.m()` is then not written as a whole but attribute by attribute."""
+    methods = {}
+    for body in cls_nodes:
+        for g in body:
+            if isinstance(g, ast.FunctionDef) and g.args.args and g.args.args[0].arg == 'self' and not g.decorator_list:
+                methods.setdefault(g.name, g)
+    direct, calls = {}, {}
+    for name, g in methods.items():
+        w, c, unknown = set(), set(), False
+        if name in other_method_names:
+            unknown = True
+        for n in ast.walk(g):
+            if isinstance(n, (ast.FunctionDef, ast.AsyncFunctionDef, ast.Lambda, ast.ClassDef)) and n is not g:
+                unknown = True
+            if isinstance(n, ast.Name) and n.id == 'self':
+                pass
+            if isinstance(n, ast.Attribute) and n.attr in ('__dict__', '__class__'):
+                unknown = True
+            if isinstance(n, ast.Name) and n.id in ('setattr', 'delattr', 'vars'):
+                unknown = True
+            tg = []
+            if isinstance(n, ast.Assign):
+                tg = n.targets
+            elif isinstance(n, (ast.AugAssign, ast.AnnAssign, ast.For, ast.AsyncFor)):
+                tg = [n.target]
+            elif isinstance(n, ast.Delete):
+                tg = n.targets
+            elif isinstance(n, (ast.With, ast.AsyncWith)):
+                tg = [it.optional_vars for it in n.items if it.optional_vars is not None]
+                for it in n.items:
+                    c_ = chain(it.context_expr) if isinstance(it.context_expr, (ast.Attribute, ast.Subscript)) else None
+                    if c_ and c_[0] == 'self' and len(c_) > 1:
+                        w.add(c_[1])
+            for t in tg:
+                for x in ast.walk(t):
+                    if isinstance(x, (ast.Attribute, ast.Subscript)) and isinstance(getattr(x, 'ctx', None), (ast.Store, ast.Del)):
+                        c_ = chain(x if isinstance(x, ast.Attribute) else x.value)
+                        if c_ is None:
+                            unknown = True
+                        elif c_[0] == 'self':
+                            if len(c_) > 1:
+                                w.add(c_[1])
+                            else:
+                                unknown = True
+                    elif isinstance(x, ast.Name) and x.id == 'self' and isinstance(x.ctx, (ast.Store, ast.Del)):
+                        unknown = True          # self rebound
+            if isinstance(n, ast.Call):
+                f = n.func
+                if isinstance(f, ast.Attribute):
+                    c_ = chain(f.value)
+                    if c_ == ('self',):
+                        c.add(f.attr)
+                    elif c_ and c_[0] == 'self' and len(c_) > 1:
+                        w.add(c_[1])        # a call on something self holds may change it
+                    elif c_ is None and any(isinstance(y, ast.Name) and y.id == 'self' for y in ast.walk(f.value)):
+                        unknown = True
+                for a in list(n.args) + [k.value for k in n.keywords]:
+                    if isinstance(a, ast.Starred):
+                        a = a.value
+                    for y in ast.walk(a):
+                        if isinstance(y, ast.Name) and y.id == 'self':
+                            # self itself, or something read through it, is handed over
+                            pc = None
+                            for z in ast.walk(a):
+                                if isinstance(z, ast.Attribute):
+                                    cz = chain(z)
+                                    if cz and cz[0] == 'self' and len(cz) > 1:
+                                        pc = cz
+                                        w.add(cz[1])
+                            if pc is None:
+                                unknown = True
+            if isinstance(n, ast.Assign) and any(isinstance(y, ast.Name) and y.id == 'self' for y in [n.value]):
+                unknown = True          # x = self
+        direct[name] = None if unknown else w
+        calls[name] = c
+    out = dict(direct)
+    for _ in range(len(methods) + 2):
+        changed = False
+        for name in methods:
+            if out[name] is None:
+                continue
+            for m in calls[name]:
+                sub = out.get(m, None) if m in methods else None
+                if sub is None:
+                    out[name] = None
+                    changed = True
+                    break
+                if not sub <= out[name]:
+                    out[name] = out[name] | sub
+                    changed = True
+        if not changed:
+            break
+    return {k: (frozenset(v) if v is not None else None) for k, v in out.items()}
+
+
+METHOD_WRITES = [{}]        # ctx['method_writes'] for the class of the function at hand
 
 
 def module_bad_attrs(tree):
@@ -3874,6 +3998,8 @@ def _container_value(v):
         return True
     if isinstance(v, ast.BinOp) and isinstance(v.op, (ast.Add, ast.Mult)):
         return _container_value(v.left) or _container_value(v.right)
+    if isinstance(v, ast.Subscript) and isinstance(v.slice, ast.Slice):
+        return True         # iterators cannot be sliced
     return False
 
 
@@ -3981,7 +4107,7 @@ def canonical(func, helpers=None, consts=None, sized=None, cls_name=None, props=
     import re
     try:
         saved = (_SIZED[0], _CLASS[0], _NO_CLOSURES[0], _NO_CLOSURES[1], _DICTS[0], NOT_ITERATORS[0], SHADOWED[0], ALIASES[0], ALL_PROPS[0], _TREE_SAFE[0], _HANDLER_READS[0],
-                 set(_PURE_ATOMS))
+                 set(_PURE_ATOMS), set(_RAISING_ATOMS), (_SIMPLE_STORES[0], _BOOL_MARKS[0], _SET_LOCALS[0]))
         ctx = ctx or {}
         if any(isinstance(n, (ast.Global, ast.Nonlocal)) for n in ast.walk(func)):
             raise NotCanonicalisable('global / nonlocal')           # such names are not locals: none of the local-variable steps applies
@@ -3991,12 +4117,15 @@ def canonical(func, helpers=None, consts=None, sized=None, cls_name=None, props=
         _bound |= {n.name for n in ast.walk(func) if isinstance(n, ast.ExceptHandler) and n.name}
         _bound |= {n.name for n in ast.walk(func) if n is not func and isinstance(n, (ast.FunctionDef, ast.AsyncFunctionDef, ast.ClassDef))}
         _bound |= {(a.asname or a.name).split('.')[0] for n in ast.walk(func) if isinstance(n, (ast.Import, ast.ImportFrom)) for a in n.names}
+        _OUTER_BOUND[0] = frozenset(_bound)
         if _bound & (BUILTIN_SENSITIVE | STDLIB_ROOTS):
             raise NotCanonicalisable('a builtin name is rebound')
         if any(isinstance(n, ast.Name) and n.id in ('locals', 'vars', 'eval', 'exec', 'globals', 'dir') for n in ast.walk(func)):
             raise NotCanonicalisable('the locals are visible by name')
-        if any(n is not func and isinstance(n, (ast.FunctionDef, ast.AsyncFunctionDef, ast.ClassDef)) for n in ast.walk(func)):
-            raise NotCanonicalisable('a nested function may change the locals it captures whenever it is called')
+        if any(n is not func and isinstance(n, (ast.AsyncFunctionDef, ast.ClassDef)) for n in ast.walk(func)):
+            raise NotCanonicalisable('nested class / coroutine')
+        # (a nested function is compared as written, the names it mentions keep their spelling, and whatever its body may change
+        # counts as changed by every call made in the enclosing function - see LAMBDA_WRITES)
         mod_shadow = frozenset(ctx.get('module_bound', ())) & BUILTIN_SENSITIVE
         if mod_shadow and any(isinstance(n, ast.Name) and n.id in mod_shadow for n in ast.walk(func)):
             raise NotCanonicalisable('a builtin name is rebound by the module')
@@ -4006,6 +4135,8 @@ def canonical(func, helpers=None, consts=None, sized=None, cls_name=None, props=
         _OTHER_METHODS[0] = frozenset(ctx.get('other_class_methods', ()))
         _saved_mg = MUTABLE_GLOBALS[0]
         MUTABLE_GLOBALS[0] = frozenset(ctx.get('mutable_globals', ()))
+        _saved_mw = METHOD_WRITES[0]
+        METHOD_WRITES[0] = dict(ctx.get('method_writes', {})) if _SELF_FIRST[0] else {}
         ALL_PROPS[0] = frozenset(ctx.get('all_props', ()))
         _saved_seqs = _SEQS[0]
         _SEQS[0] = frozenset(tuple(c) for c in ctx.get('seqs', ()))
@@ -4052,6 +4183,11 @@ def canonical(func, helpers=None, consts=None, sized=None, cls_name=None, props=
             if isinstance(n, ast.Lambda):
                 LAMBDA_WRITES[0] = frozenset()
                 _lw |= written_chains(ast.Expr(value=n.body))
+            elif n is not func and isinstance(n, ast.FunctionDef):
+                LAMBDA_WRITES[0] = frozenset()
+                own = set(_params(n)) | {x.id for x in ast.walk(n) if isinstance(x, ast.Name) and isinstance(x.ctx, (ast.Store, ast.Del))}
+                for b_ in n.body:
+                    _lw |= {c for c in written_chains(b_) if c[0] not in own}
         LAMBDA_WRITES[0] = frozenset(_lw)
         _SIZED[0] = frozenset(sized or ()) if sized is not None else _SIZED[0]
         _CLASS[0] = cls_name if cls_name is not None else _CLASS[0]
@@ -4200,10 +4336,14 @@ def canonical(func, helpers=None, consts=None, sized=None, cls_name=None, props=
             _SIZED[0], _CLASS[0], _NO_CLOSURES[0], _NO_CLOSURES[1], _DICTS[0], NOT_ITERATORS[0], SHADOWED[0], ALIASES[0], ALL_PROPS[0], _TREE_SAFE[0], _HANDLER_READS[0] = saved[:11]
             _PURE_ATOMS.clear()
             _PURE_ATOMS.update(saved[11])
+            _RAISING_ATOMS.clear()
+            _RAISING_ATOMS.update(saved[12])
+            _SIMPLE_STORES[0], _BOOL_MARKS[0], _SET_LOCALS[0] = saved[13]
             _SEQS[0] = _saved_seqs
             _NUMERIC_LOCALS[0] = _saved_num
             _OTHER_METHODS[0] = _saved_om
             MUTABLE_GLOBALS[0] = _saved_mg
+            METHOD_WRITES[0] = _saved_mw
             NONE_TESTED[0], ATTR_ERRORS_CAUGHT[0], LAMBDA_WRITES[0], NONE_TESTED_CHAINS[0] = _saved_nt
         except NameError:
             pass
